@@ -14,6 +14,7 @@ pub mod c10;
 pub mod c11;
 pub mod c11_interop;
 pub mod c12;
+pub mod c13;
 pub mod c14;
 pub mod c14_pc;
 pub mod c15;
@@ -38,6 +39,7 @@ pub const TABLE: &[(&str, fn(&mut Ctx))] = &[
     ("C10", c10::run),
     ("C11", c11::run),
     ("C12", c12::run),
+    ("C13", c13::run),
     ("C14", c14::run),
     ("C15", c15::run),
     ("C16", c16::run),
